@@ -66,7 +66,8 @@ PROPS = {
         k_quick=[], k_thorough=[],
     ),
     'C05': dict(
-        v=[('u_mb2_dstlen', ['*Tag::dst_len', '*_BASE_SIZE', 'DynSizedStructure::dst_len', 'MaybeDynSized::payload', 'MaybeDynSized::as_bytes'])],
+        v=[('u_mb2_dstlen', ['*Tag::dst_len', '*_BASE_SIZE', 'DynSizedStructure::dst_len', 'MaybeDynSized::payload', 'MaybeDynSized::as_bytes']),
+           ('u_hdr_builder', ['InformationRequestHeaderTag::dst_len', 'INFOREQ_BASE_SIZE'])],
         k_quick=[], k_thorough=[],
     ),
     'C15': dict(
@@ -108,6 +109,12 @@ PROPS = {
            ('u_mb2_elf', ['ElfSectionsTag::sections', 'elf::ElfSectionIter::next', 'elf::ElfSection::get', 'elf::ElfSection::section_type']),
            ('u_mb2_fb', ['FramebufferTag::buffer_type', 'Reader::new', 'Reader::read_next_u8', 'Reader::read_next_u16', 'Reader::current_ptr',
                          'FramebufferTypeId::try_from', '*Tag::dst_len'])],
+        k_quick=[], k_thorough=[],
+    ),
+    'C12': dict(
+        v=[('u_hdr_builder', ['hb::Builder::build', 'hb::Builder::new', 'hb::Builder::*_tag', 'EndHeaderTag::new', 'Multiboot2BasicHeader::new',
+                              'HeaderTagHeader::new', 'Multiboot2BasicHeader::calc_checksum', 'lemma_spec_checksum', 'seqfold::lemma_*',
+                              'MaybeDynSized::as_bytes', 'BytesRef::vbytes', 'lemma_hdr_layouts'])],
         k_quick=[], k_thorough=[],
     ),
     'C14': dict(
